@@ -966,6 +966,17 @@ def gen_formulas(trees, rec_tree):
                 return got
             raise Untranslatable(f"conversion of {var} not found")
         return sel
+    def find_setter(cls, name):
+        for n_ in cls.body:
+            if isinstance(n_, ast.FunctionDef) and n_.name == name and any(
+                    isinstance(dd, ast.Attribute) and dd.attr == "setter" for dd in n_.decorator_list):
+                return n_
+        raise KeyError(name)
+    parts.append(lean_formula(
+        "delta_capital_cell", find_setter(base, "productive_capital_lost"),
+        "`ARIOBaseModel.productive_capital_lost` (setter): the share of production capacity lost to destroyed capital, one industry.",
+        fixed_params=["productive_capital_lost", "productive_capital"],
+        body=branch_range("productive_capital_lost is not None", "tmp", "tmp"), result="tmp"))
     tinit = find_func(tracker, "__init__")
     parts.append(lean_formula(
         "convert_impact_cell", tinit, "`EventTracker.__init__`: one entry of the industrial impact converted to the model's monetary unit.",
@@ -1018,6 +1029,34 @@ def gen_formulas(trees, rec_tree):
             "import Boario.GenTypes\nimport Boario.Basic\n\nnamespace Boario.Gen\n\n" + "\n".join(parts) + "\nend Boario.Gen\n")
 
 
+def gen_aggregation(tree):
+    """which trackers the simulation aggregates, what it takes from them and how it combines them"""
+    sim = find_class(tree, "Simulation")
+    rows = []
+    for fname in ("update_productive_capital_lost", "update_prod_cap_delta_arb"):
+        fn = find_func(sim, fname)
+        statuses, attrs, reducers = None, [], []
+        for node in ast.walk(fn):
+            if isinstance(node, ast.Compare) and len(node.ops) == 1 and isinstance(node.ops[0], ast.In) \
+                    and isinstance(node.comparators[0], (ast.List, ast.Tuple)) and ast.unparse(node.left).endswith(".status"):
+                vals = [e.value for e in node.comparators[0].elts if isinstance(e, ast.Constant)]
+                statuses = vals if statuses is None else statuses + ["<second status test>"]
+            if isinstance(node, ast.ListComp) and isinstance(node.elt, ast.Attribute) and node.elt.attr.startswith("_"):
+                attrs.append(node.elt.attr)
+            if isinstance(node, ast.Call):
+                ch = attr_chain(node.func)
+                if ch and ch.endswith(".reduce"):
+                    reducers.append(ch)
+        rows.append((fname, statuses or [], sorted(set(attrs)), sorted(set(reducers))))
+    body = ",\n".join(
+        f"  ({lstr(f)}, [{', '.join(lstr(x) for x in st)}], [{', '.join(lstr(x) for x in at)}], [{', '.join(lstr(x) for x in rd)}])"
+        for f, st, at, rd in rows)
+    return ("/- GENERATED by harness/translate.py: how the simulation aggregates the damages of its trackers. Do not edit. -/\n"
+            "namespace Boario.Gen\n\n"
+            "/-- (function, statuses of the trackers taken into account, attribute collected from each, reducer) -/\n"
+            "def aggregations : List (String × List String × List String × List String) := [\n" + body + "\n]\n\nend Boario.Gen\n")
+
+
 def regenerate():
     GEN.mkdir(parents=True, exist_ok=True)
     trees = {}
@@ -1029,6 +1068,7 @@ def regenerate():
         "Defaults.lean": gen_defaults(trees),
         "Slices.lean": gen_slices(trees),
         "Loop.lean": gen_loop(trees["simulation"]),
+        "Aggregation.lean": gen_aggregation(trees["simulation"]),
         "Formulas.lean": gen_formulas(trees, ast.parse((REPO / "boario" / "utils" / "recovery_functions.py").read_text())),
     }
     changed = []
